@@ -765,7 +765,7 @@ where
                 .await?
         } else {
             storage
-                .get::<Azks>(&crate::append_only_zks::DEFAULT_AZKS_KEY)
+                .get_committed::<Azks>(&crate::append_only_zks::DEFAULT_AZKS_KEY)
                 .await?
         };
         match got {
